@@ -170,6 +170,17 @@ func ErrType(err error) string {
 
 // ReadStep performs one Read (and, on success, one RawRecord) and returns the observed steps.
 func ReadStep(tr omniparser.Transform, withRaw bool) Step {
+	st, _ := ReadStepHolding(tr, withRaw)
+	return st
+}
+
+// ReadStepHolding is ReadStep that also hands back the very slice Read returned (not a copy).
+func ReadStepHolding(tr omniparser.Transform, withRaw bool) (Step, []byte) {
+	s, b := readStep(tr, withRaw)
+	return s, b
+}
+
+func readStep(tr omniparser.Transform, withRaw bool) (Step, []byte) {
 	b, err := tr.Read()
 	s := Step{Op: "Read", Class: Classify(err)}
 	if b != nil {
@@ -178,7 +189,7 @@ func ReadStep(tr omniparser.Transform, withRaw bool) Step {
 	if err != nil {
 		s.ErrType = ErrType(err)
 		s.ErrMsg = err.Error()
-		return s
+		return s, b
 	}
 	if withRaw {
 		rr, rerr := tr.RawRecord()
@@ -193,7 +204,7 @@ func ReadStep(tr omniparser.Transform, withRaw bool) Step {
 			}
 		}
 	}
-	return s
+	return s, b
 }
 
 // RunOpts configures RunAll.
@@ -202,6 +213,9 @@ type RunOpts struct {
 	ExtraReads int  // Reads issued after the first terminal result
 	NoRaw      bool // skip RawRecord
 	Ext        map[string]string
+	// Held, if set, makes RunAll keep the slices Read returned (uncopied) until the run has ended and report, here, the index of the
+	// first Read step whose slice no longer holds the bytes it held when it was returned (-1: none)
+	Held *int
 	// OnRecord, if set, is called with the live record node after every successful Read, and with nil once the run has ended
 	OnRecord func(n *idr.Node)
 }
@@ -218,9 +232,13 @@ func RunAll(s omniparser.Schema, input io.Reader, o RunOpts) Transcript {
 	if max <= 0 {
 		max = 1 << 20
 	}
+	var held [][]byte
 	for i := 0; i < max; i++ {
-		st := ReadStep(tr, !o.NoRaw)
+		st, b := ReadStepHolding(tr, !o.NoRaw)
 		t = append(t, st)
+		if o.Held != nil {
+			held = append(held, b)
+		}
 		if o.OnRecord != nil {
 			if st.Class == OK {
 				if rr, rerr := tr.RawRecord(); rerr == nil && rr != nil {
@@ -235,6 +253,15 @@ func RunAll(s omniparser.Schema, input io.Reader, o RunOpts) Transcript {
 		if st.Class == EOF || st.Class == FATAL {
 			for j := 0; j < o.ExtraReads; j++ {
 				t = append(t, ReadStep(tr, !o.NoRaw))
+			}
+			if o.Held != nil {
+				*o.Held = -1
+				for k, b := range held {
+					if string(b) != t[k].Bytes {
+						*o.Held = k
+						break
+					}
+				}
 			}
 			return t
 		}
